@@ -58,6 +58,16 @@ union PoolHolder {
 
 static constexpr size_t kStride = dispenso::detail::alignToCacheLine(sizeof(Res));
 
+// construct the pool with `size` (1..maxSize) resources.  One constructor call per size so that the
+// size of the backing allocation is a constant for the solver (a symbolic allocation size makes
+// cbmc model the block as an unbounded array)
+static inline void makePool(PoolHolder& h, uint32_t size) {
+  if (size == 1) new (&h.p) Pool(1, Init{});
+  else if (size == 2) new (&h.p) Pool(2, Init{});
+  else if (size == 3) new (&h.p) Pool(3, Init{});
+  else new (&h.p) Pool(4, Init{});
+}
+
 // index of the pool resource `p` points to, -1 if it is none of them
 static inline int resIndex(Pool& pool, const Res* p, uint32_t size) {
   int k = -1;
